@@ -134,8 +134,12 @@ pub async fn type_definition(
                                         // in the declaration of the variable itself
                                         // is the variable, not a type declaration.
                                         // There is no type definition to go to then.
-                                        if let Some(entry @ GlobalEntry::Type(t)) =
-                                            doc.table.lookup(creator)
+                                        // (Nor is there one if the name of the creator
+                                        // happens to be the name of a builtin type.)
+                                        if let Some(entry @ GlobalEntry::Type(t)) = doc
+                                            .table
+                                            .lookup(creator)
+                                            .filter(|entry| !Entry::from(*entry).is_default())
                                         {
                                             return Ok(Some(Location {
                                                 uri,
